@@ -410,18 +410,123 @@ fn run_act(conn: &mut Option<Conn>, a: &Act, tr: Transport, tcp: &str, ws: &str,
     }
 }
 
+/// `burst-direct`: sessions select (and switch) databases at the same instant, then all disconnect at
+/// the same instant; direct sessions, so that the handlers interleave at lock granularity.
+#[derive(Clone, Debug, Serialize, Deserialize)]
+pub struct Burst {
+    pub ndbs: usize,
+    /// (first database, database switched to afterwards)
+    pub sessions: Vec<(usize, Option<usize>)>,
+}
+
+fn gen_burst(rng: &mut Rng) -> Burst {
+    let ndbs = rng.range(1, 2) as usize;
+    let n = rng.range(2, 4) as usize;
+    let sessions = (0..n).map(|_| (rng.below(ndbs as u64) as usize, if rng.chance(1, 3) { Some(rng.below(ndbs as u64) as usize) } else { None })).collect();
+    Burst { ndbs, sessions }
+}
+
+fn execute_burst(prog: Burst) -> Outcome {
+    let mut out = Outcome { setup_ok: false, violations: vec![], checks: 0, max_open: 0 };
+    let w = World::new(1);
+    w.boot(0, "");
+    if !w.wait_primary(0, 5_000) {
+        return out;
+    }
+    let dbs = match w.dbs(0) {
+        Some(d) => d,
+        None => return out,
+    };
+    let mut observers: Vec<Session> = Vec::new();
+    for i in 0..prog.ndbs {
+        let mut admin = Session::admin(&dbs);
+        if admin.exec(&format!("create-db {} tok{} none", DBN[i], i)).resp.is_err() {
+            return out;
+        }
+        admin.disconnect();
+        let mut o = Session::new(&dbs);
+        if o.exec(&format!("use-db {} tok{}", DBN[i], i)).resp.is_err() {
+            return out;
+        }
+        observers.push(o);
+    }
+    let read = |o: &mut Session| -> Option<i64> { crate::kv::parse_value(&o.exec("get $connections").msgs).and_then(|v| v.trim().parse::<i64>().ok()) };
+    for o in observers.iter_mut() {
+        if read(o) != Some(1) {
+            return out;
+        }
+    }
+    out.setup_ok = true;
+    // phase 1: everybody selects at the same instant
+    let mut handles = Vec::new();
+    for (si, (first, switch)) in prog.sessions.iter().cloned().enumerate() {
+        let d = dbs.clone();
+        handles.push(spawn_on_node(&w, 0, &format!("burst{}", si), move || {
+            let mut s = Session::new(&d);
+            s.exec(&format!("use-db {} tok{}", DBN[first], first));
+            if let Some(t) = switch {
+                s.exec(&format!("use-db {} tok{}", DBN[t], t));
+            }
+            s
+        }));
+    }
+    let mut sessions: Vec<Session> = Vec::new();
+    for h in handles {
+        match h.join() {
+            Ok(s) => sessions.push(s),
+            Err(_) => return out,
+        }
+    }
+    out.max_open = sessions.len() as u64;
+    let shape = format!("{}-sessions:{}", prog.sessions.len(), if prog.sessions.iter().any(|s| s.1.is_some()) { "with-switch" } else { "select-only" });
+    for (i, o) in observers.iter_mut().enumerate() {
+        let want = 1 + prog.sessions.iter().filter(|(f, sw)| sw.unwrap_or(*f) == i).count() as i64;
+        let got = read(o);
+        out.checks += 1;
+        if got != Some(want) {
+            out.violations.push(Violation::new(
+                "wrong-count",
+                format!("burst-joined:{}", shape),
+                format!("database {}: {} sessions selected it at the same instant (plus the observer) but $connections = {:?}, expected {}", DBN[i], want - 1, got, want),
+            ));
+            return out;
+        }
+    }
+    // phase 2: everybody leaves at the same instant
+    let mut handles = Vec::new();
+    for (si, s) in sessions.into_iter().enumerate() {
+        handles.push(spawn_on_node(&w, 0, &format!("leave{}", si), move || s.disconnect()));
+    }
+    for h in handles {
+        let _ = h.join();
+    }
+    for (i, o) in observers.iter_mut().enumerate() {
+        let got = read(o);
+        out.checks += 1;
+        if got != Some(1) {
+            out.violations.push(Violation::new(
+                "not-back-to-baseline",
+                format!("burst-left:{}", shape),
+                format!("database {}: all sessions of the burst are gone but $connections = {:?} (1 = the observer)", DBN[i], got),
+            ));
+        }
+    }
+    check_panics(&mut out);
+    out
+}
+
 impl Property for C17 {
     fn id(&self) -> &'static str {
         "C17"
     }
     fn scenarios(&self) -> Vec<(&'static str, u32)> {
-        vec![("sequential", 3), ("interleaved", 1)]
+        vec![("sequential", 3), ("interleaved", 1), ("burst-direct", 2)]
     }
     fn budget(&self) -> (u64, u64) {
         (6_000, 300_000)
     }
     fn rule(&self) -> &'static str {
-        "1-3 sessions over the real TCP / WebSocket / HTTP transports of a node booted by start_db (simulated wire), 2-14 events of {connect, use-db with token / wrong token / user token / unknown database (same database again or another one), refused command, disconnect (TCP close, WS close frame, WS abrupt), one-shot HTTP request} over 1-2 databases; an observer session per database (counted) reads $connections after every event at a quiescent point and watches it; 'interleaved' runs the sessions as concurrent tasks and judges the end state. Non-trivial: a database was selected by at least one non-observer session. distinct = distinct (program, task-switch sequence)."
+        "1-3 sessions over the real TCP / WebSocket / HTTP transports of a node booted by start_db (simulated wire), 2-14 events of {connect, use-db with token / wrong token / user token / unknown database (same database again or another one), refused command, disconnect (TCP close, WS close frame, WS abrupt), one-shot HTTP request} over 1-2 databases; an observer session per database (counted) reads $connections after every event at a quiescent point and watches it; 'interleaved' runs the sessions as concurrent tasks and judges the end state; 'burst-direct' lets 2-4 direct sessions select (and switch) databases at the same instant, checks every counter, then lets them all leave at the same instant and checks again (handlers interleave at lock granularity). Non-trivial: a database was selected by at least one non-observer session. distinct = distinct (program, task-switch sequence)."
     }
     fn assumptions(&self) -> Vec<String> {
         vec![
@@ -435,6 +540,36 @@ impl Property for C17 {
     }
     fn run_one(&self, scenario: &str, ctx: &RunCtx) -> RunReport {
         let mut rng = Rng::new(ctx.seed);
+        if scenario == "burst-direct" {
+            let prog: Burst = match &ctx.program {
+                Some(p) => serde_json::from_value(p.clone()).expect("program"),
+                None => gen_burst(&mut rng),
+            };
+            let mut cfg = SimConfig::new(ctx.seed ^ 0xc17);
+            cfg.policy = policy_for(Rng::new(ctx.seed ^ 0x9011c7).next_u64());
+            cfg.trace = ctx.trace;
+            let p2 = prog.clone();
+            let outcome = run_sim(cfg, move || execute_burst(p2));
+            clear_registry();
+            let mut rep = RunReport { seed: ctx.seed, scenario: scenario.to_string(), ..Default::default() };
+            rep.program = serde_json::to_value(&prog).unwrap();
+            rep.absorb_kernel(&outcome.kernel);
+            let switch_hash = outcome.kernel.switch_hash;
+            if let Some(p) = outcome.harness_panic {
+                rep.harness_error = Some(p);
+                return rep;
+            }
+            match outcome.result {
+                Some(o) if o.setup_ok => {
+                    rep.violations.extend(o.violations);
+                    rep.nontrivial = true;
+                    rep.counters.insert("count_checks".into(), o.checks);
+                }
+                _ => rep.discarded = Some("setup_unstable".into()),
+            }
+            rep.case_hash = nundb_verif_rt::kernel::mix(hash_str(&rep.program.to_string()), switch_hash);
+            return rep;
+        }
         let concurrent = scenario == "interleaved";
         let prog: Program = match &ctx.program {
             Some(p) => serde_json::from_value(p.clone()).expect("program"),
